@@ -2,8 +2,11 @@
 # usage: tools/mutant_iso.sh <patch.diff> <id> [id...] — like mutant.sh but in isolation: scratch worktree of /repo HEAD (+ uncommitted hook
 # files) and a private copy of /verif under /tmp, removed afterwards. For use while /repo itself must stay untouched.
 P=$(readlink -f "$1"); shift
-TAG=$$
+# MWT_SLOT (optional): a fixed slot name instead of the PID, so that successive runs of one worker reuse the same paths and with them
+# most of the Go build cache (the cache key of a package depends on its directory)
+TAG=${MWT_SLOT:-$$}
 WT=/tmp/mwt-$TAG; VC=/tmp/mverif-$TAG
+git -C /repo worktree remove --force $WT 2>/dev/null; rm -rf $WT $VC; git -C /repo worktree prune
 git -C /repo worktree add -q --detach $WT HEAD || exit 2
 (cd /repo && git ls-files --others --exclude-standard | grep verif_hooks | while read f; do cp /repo/$f $WT/$f; done)
 trap 'git -C /repo worktree remove --force '$WT' 2>/dev/null; [ -n "$KEEP" ] || rm -rf '$VC EXIT
